@@ -71,7 +71,8 @@ Definition kind_of_secondary (s : secondary) : tok_kind :=
 Definition tok_kind_eqb (a b : tok_kind) : bool :=
   match a, b with
   | KValue, KValue | KBinary, KBinary | KPrefix, KPrefix | KSuffix, KSuffix
-  | KOpen, KOpen | KClose, KClose | KSpace, KSpace | KOther, KOther => true
+  | KSpace, KSpace | KOther, KOther => true
+  | KOpen x, KOpen y | KClose x, KClose y => bkind_eqb x y
   | _, _ => false
   end.
 
@@ -81,8 +82,8 @@ Definition token_agrees (t : token_type) : bool :=
   (* right-to-left exactly for the pinned set *)
   Bool.eqb (secondary_eqb s S_BinaryRightToLeft) (ref_rtl d && tok_kind_eqb (ref_kind t) KBinary) &&
   match ref_kind t with
-  | KOpen => secondary_eqb s S_StartGrouping && definition_eqb d D_Group
-  | KClose => secondary_eqb s S_EndGrouping
+  | KOpen b => secondary_eqb s S_StartGrouping && definition_eqb d (bdef b)
+  | KClose _ => secondary_eqb s S_EndGrouping
   | KOther => true
   | k => tok_kind_eqb (kind_of_secondary s) k
   end.
